@@ -48,7 +48,10 @@ Section Reject.
     reflexivity.
   Qed.
 
-  (** * strings *)
+End Reject.
+
+(** * strings (no reference to strtod) *)
+Section Strings.
 
   (** [l], read as the continuation of a string body, is refused whatever the fuel *)
   Definition string_dead (l : bytes) : Prop := forall f, str_l f l = None.
@@ -175,6 +178,11 @@ Section Reject.
       well-formed beginning of the body *)
   Lemma string_l_dead l : string_dead l -> string_l l = None.
   Proof. intro H. unfold string_l. rewrite H. reflexivity. Qed.
+
+End Strings.
+
+Section Reject2.
+  Variable strtod : bytes -> option (dbl * nat).
 
   Lemma reject_dead_string f d l : string_dead l -> value_l strtod f d (34 :: l) = None.
   Proof.
@@ -371,7 +379,7 @@ Section Reject.
     intro H. destruct f as [|f]; [reflexivity|]. rewrite value_l_object.
     apply Z.leb_le in H. rewrite H. reflexivity.
   Qed.
-End Reject.
+End Reject2.
 
 (** * nesting deeper than the limit *)
 
